@@ -145,6 +145,13 @@ func newPointerDecoder(decoder *encoding.DecodeAssembler[Value, any]) encoding.D
 				}
 				return dec.Decode(source, t.Elem().UnsafePointer())
 			}), nil
+		} else if typ.Kind() == reflect.Pointer && typ.Elem() == types[KindUnknown] {
+			return encoding.DecodeFunc(func(source Value, target unsafe.Pointer) error {
+				if source == nil {
+					return nil
+				}
+				return errors.WithStack(encoding.ErrUnsupportedType)
+			}), nil
 		}
 		return nil, errors.WithStack(encoding.ErrUnsupportedType)
 	})
